@@ -1082,7 +1082,12 @@ def run_image(ctx, d, exe, consts, outdir, total):
     img = os.path.join(outdir, "c10.img")
     r = subprocess.run([os.path.join(d, "chibi-scheme"), "-d", img], capture_output=True, text=True, timeout=120, env=B.chibi_env(d))
     if r.returncode != 0 or not os.path.exists(img):
-        ctx.broken("image:dump-failed", "chibi-scheme -d did not write an image: rc=%s %s" % (r.returncode, (r.stdout + r.stderr)[-300:]))
+        # sexp_save_image packs the live objects into a segment made by sexp_gc_packed_heap_make(total size, 0): when that
+        # segment is not an exact tiling of the packed objects the packer runs out of room / the walk fails
+        ctx.violation("image:packed-heap-cannot-be-built", input="chibi-scheme -d %s (dump the freshly started interpreter as an image)" % img,
+                      expected="an image is written: the segment made for the packed objects holds exactly them (packed_heap_make_inv with free = 0)",
+                      observed="rc=%s %s" % (r.returncode, (r.stdout + r.stderr)[-300:]),
+                      replay="LD_LIBRARY_PATH=%s CHIBI_MODULE_PATH=%s/lib CHIBI_IGNORE_SYSTEM_PATH=1 %s/chibi-scheme -d /var/tmp/c10.img" % (d, d, d))
         return
     import struct
     raw = open(img, "rb").read(48)
@@ -1112,10 +1117,10 @@ def run_image(ctx, d, exe, consts, outdir, total):
             expr = ("(let loop ((i 0) (keep '())) (if (< i %d) (loop (+ i 1) (let ((x (cond ((= 0 (modulo i 7)) (make-vector (modulo (* i %d) 200) i)) "
                     "((= 1 (modulo i 7)) (make-string (modulo (* i %d) 300) #\\a)) ((= 2 (modulo i 7)) (number->string (* i i i))) (else (list i i i))))) "
                     "(if (= 0 (modulo i 50)) (cons x (if (> (length keep) 40) '() keep)) keep)))))" % (n, m1, m2))
-            w = run_workload(d, name, "scm", cargs + ["-e", expr], None, outdir, timeout=300, extra_env={"CHIBI_VERIF_GC_EARLY": "1", "CHIBI_VERIF_GC": "at:1"})
+            w = run_workload(d, name, "scm", cargs + ["-e", expr], None, outdir, timeout=(40 if not ctx.thorough else 300), extra_env={"CHIBI_VERIF_GC_EARLY": "1", "CHIBI_VERIF_GC": "at:1"})
             sargs = ["-e", "<core-only loop n=%d>" % n]
         else:
-            w = run_workload(d, name, "scm", cargs, sargs, outdir, timeout=300, extra_env={"CHIBI_VERIF_GC_EARLY": "1", "CHIBI_VERIF_GC": "at:1"})
+            w = run_workload(d, name, "scm", cargs, sargs, outdir, timeout=(60 if not ctx.thorough else 300), extra_env={"CHIBI_VERIF_GC_EARLY": "1", "CHIBI_VERIF_GC": "at:1"})
         w["replay"] = "CHIBI_VERIF_GC_EARLY=1 CHIBI_VERIF_GC=at:1 " + w["replay"] + "   # image: %s -d %s" % (os.path.join(d, "chibi-scheme"), img)
         if not os.path.exists(w["trace"]):
             ctx.broken("workload:" + name, "workload left no trace: rc=%s %s" % (w["rc"], w["err"][-300:]))
@@ -1248,9 +1253,10 @@ def roots_histories(rng, thorough):
             if rng.randrange(3):
                 g.P(i)
         elif r < 38 and u:
-            i = g.new("V", rng.randrange(1, 6))
+            nslots = rng.randrange(1, 6)
+            i = g.new("V", nslots)
             g.P(i)
-            for k in range(rng.randrange(0, 4)):
+            for k in range(rng.randrange(0, nslots + 1)):
                 g.ops.append("S %d %d %d" % (i, k, rng.choice(u)))
         elif r < 46 and g.pres:
             g.P(rng.choice(g.pres))                         # the same object preserved twice
@@ -1388,6 +1394,7 @@ def judge_roots(ctx, exe, name, hist, ops, out, replay, agg):
     owner = {}           # address -> id
     edges = {}           # id -> list of ids
     slots = {}           # id -> {slot index: id} (for S)
+    nslots = {}          # id -> number of slots (pair 2, vector n, bytes 0)
     balance = {}         # address -> preservations minus releases (spec)
     last = None
     reqs = ["roots reset"]
@@ -1432,9 +1439,10 @@ def judge_roots(ctx, exe, name, hist, ops, out, replay, agg):
             addr[i] = g[2]; owner[g[2]] = i; last = i
             edges[i] = [int(x) for x in f[2:4] if int(x)] if c == "C" else []
             slots[i] = dict(enumerate(int(x) for x in f[2:4])) if c == "C" else {}
+            nslots[i] = 2 if c == "C" else (max(int(f[2]), 1) if c == "V" else 0)
         elif c == "S":
             i, kk, a = int(f[1]), int(f[2]), int(f[3])
-            if i in edges:
+            if i in edges and 0 <= kk < nslots.get(i, 0):       # the harness ignores a slot index outside the object
                 slots.setdefault(i, {})[kk] = a
                 edges[i] = [x for x in slots[i].values() if x]
         elif c in "PR":
@@ -1546,7 +1554,9 @@ def members_history(rng, thorough):
         "(begin (define (c10-h a b . c) (if a b c)) c10-h)", "car", "(lambda args (apply + args))",
         # ports
         "(open-input-string \"hello world from a string port\")", "(let ((p (open-output-string))) (write '(a b c) p) p)", "(current-output-port)",
-        "(open-input-bytevector (bytevector 1 2 3 4))",
+        "(open-input-bytevector (bytevector 1 2 3 4))", "(open-input-file \"%s\")" % os.path.abspath(WORKLOADS),
+        # ports over file-descriptor objects: the File-Descriptor object is referenced by the port's fd member (and weakly by the fd table)
+        "(open-input-file-descriptor (open \"%s\" open/read))" % os.path.abspath(WORKLOADS), "(open-output-file-descriptor (open \"/dev/null\" open/write))",
         # environments, type objects, parameters, promises, macros
         "(current-environment)", "(begin (define-record-type c10-point (make-c10-point x y) c10-point? (x c10-point-x) (y c10-point-y set-c10-point-y!)) c10-point)",
         "(make-c10-point (list 1 2) (vector 3 4))", "(make-parameter (list 5 6))", "(delay (+ 1 2))", "(make-promise (list 'done))",
@@ -1556,7 +1566,7 @@ def members_history(rng, thorough):
         "(list->string (list #\\a #\\x3bb #\\b))", "(make-bytevector 100 7)", "(vector (list 1 2) (vector 3) \"s\")", "(list (cons 1 2) (cons 3 (cons 4 '())))",
         "(let ((l (list 1 2 3))) (set-cdr! (cddr l) l) l)", "(string-copy \"a string\")", "(make-vector 300 (list 'shared))",
     ]
-    ops = ["E 1 (import (scheme base) (scheme write) (scheme lazy) (srfi 9))", "T"]
+    ops = ["E 1 (import (scheme base) (scheme write) (scheme lazy) (srfi 9) (only (chibi filesystem) open open/read open/write))", "T"]
     nid = 1
     kept = []
     rounds = 3 if not thorough else 12
